@@ -210,6 +210,11 @@ def run_cases(ctx, cases, use_model=True, procs=8):
             if out['raise'].startswith('AttributeError') and ('RHeff' in out['raise'] or 'LHeff' in out['raise']) \
                     and case['model'].get('explicit_plus_hc') and case['engine'] == 'SingleSiteDMRGEngine':
                 sig = 'effH.adjoint-raises.OneSiteH.combine'
+            if case['model'].get('explicit_plus_hc') and 'mix_and_decompose_1site' in out.get('tb', ''):
+                sig = 'dmrg.run-raises.SubspaceExpansion-with-explicit_plus_hc'
+            if out['raise'].startswith('ValueError: qtotal_LR must add up') and case['opts'].get('diag_method') == 'ED_all' \
+                    and case['engine'] == 'SingleSiteDMRGEngine':
+                sig = 'dmrg.run-raises.ED_all.single-site-with-two-site-mixer'
             if out['raise'].startswith('ArpackError') and case['opts'].get('diag_method') == 'arpack' \
                     and 'Starting vector is zero' in out['raise']:
                 sig += '.arpack.starting-vector-zero'
